@@ -10,6 +10,7 @@ from vf import pool
 
 VERIF = os.path.dirname(os.path.dirname(os.path.abspath(__file__)))
 REPO = os.environ.get('VERIF_REPO', '/repo')
+OUT = os.environ.get('VERIF_OUT', VERIF)   # evidence/ and replays/ go here
 EXIT_OK, EXIT_VIOLATION, EXIT_INCONCLUSIVE = 0, 1, 2
 
 
@@ -193,9 +194,9 @@ def run_check(mod, tier):
     lines.append('KNOWN-FINDING: property=%s %s [key=%s; %d reproduced '
                  'instance(s) this run]' % (pid, k['what'], key, n))
   seen_keys = set()
-  os.makedirs(os.path.join(VERIF, 'replays', pid), exist_ok=True)
+  os.makedirs(os.path.join(OUT, 'replays', pid), exist_ok=True)
   for h, c, payload in confirmed:
-    path = os.path.join(VERIF, 'replays', pid, h + '.json')
+    path = os.path.join(OUT, 'replays', pid, h + '.json')
     json.dump(_jsonable(dict(property=pid, module=mod.__name__, case=c['case'],
                              key=payload.get('key'), detail=payload.get(
                                  'detail'), found_by=c.get('job'),
@@ -264,8 +265,8 @@ def write_evidence(mod, rep, tier, sd, wall, n_viol, n_known):
   ev = dict(property_id=rep.pid, tier=tier, seed=sd, level='model_checking',
             coverage=cov, assumptions=meta.get('assumptions', []),
             wall_s=round(wall, 2), violations=n_viol)
-  os.makedirs(os.path.join(VERIF, 'evidence'), exist_ok=True)
-  json.dump(ev, open(os.path.join(VERIF, 'evidence', rep.pid + '.json'), 'w'),
+  os.makedirs(os.path.join(OUT, 'evidence'), exist_ok=True)
+  json.dump(ev, open(os.path.join(OUT, 'evidence', rep.pid + '.json'), 'w'),
             indent=1)
 
 
